@@ -477,6 +477,11 @@ fn cut_class(info: &Info, cut: usize) -> String {
 }
 
 /// One chunking of one stream.  `cuts` are strictly increasing positions in 1..len.
+thread_local! {
+    static REUSED: std::cell::RefCell<Option<Http2FingerprintExtractor>> = const { std::cell::RefCell::new(None) };
+    static REUSE_COUNTER: std::cell::Cell<u64> = const { std::cell::Cell::new(0) };
+}
+
 fn incremental(ctx: &mut Ctx, bytes: &[u8], info: &Info, cuts: &[usize], kind: &str) {
     let mut ends: Vec<usize> = cuts.to_vec();
     ends.push(bytes.len());
@@ -500,8 +505,21 @@ fn incremental(ctx: &mut Ctx, bytes: &[u8], info: &Info, cuts: &[usize], kind: &
         }
     }
     // library
+    // every second history runs on an extractor that has already served other connections and
+    // was reset() for this one ("Reset the extractor to process a new connection"): it must
+    // behave like a new one
+    let reused = REUSE_COUNTER.with(|c| {
+        c.set(c.get() + 1);
+        c.get() % 2 == 0
+    });
     let run = rt::guard(|| {
-        let mut ex = Http2FingerprintExtractor::new();
+        let mut ex = if reused {
+            let mut e = REUSED.with(|e| e.borrow_mut().take()).unwrap_or_default();
+            e.reset();
+            e
+        } else {
+            Http2FingerprintExtractor::new()
+        };
         let mut out: Vec<Result<Option<(String, String)>, String>> = Vec::with_capacity(ends.len());
         let mut prev = 0usize;
         for &e in &ends {
@@ -509,12 +527,16 @@ fn incremental(ctx: &mut Ctx, bytes: &[u8], info: &Info, cuts: &[usize], kind: &
             prev = e;
         }
         let last = ex.get_fingerprint().map(|f| (f.fingerprint.clone(), f.hash.clone()));
-        (out, last, ex.fingerprint_extracted())
+        let flag = ex.fingerprint_extracted();
+        if reused {
+            REUSED.with(|e| *e.borrow_mut() = Some(ex));
+        }
+        (out, last, flag)
     });
     let (out, last, flag) = match run {
         Ok(x) => x,
         Err(p) => {
-            ctx.judge(false, &[], "panic in Http2FingerprintExtractor", || json!({"bytes_hex": hex(bytes), "chunk_ends": ends, "panic": p}));
+            ctx.judge(false, &[], "panic in Http2FingerprintExtractor", || json!({"bytes_hex": hex(bytes), "chunk_ends": ends, "panic": p, "extractor_reused_after_reset": reused}));
             return;
         }
     };
@@ -559,7 +581,7 @@ fn incremental(ctx: &mut Ctx, bytes: &[u8], info: &Info, cuts: &[usize], kind: &
     };
     ctx.judge(ok, &devs, "incremental extractor: history of add_bytes results differs from the one-shot rule", || {
         json!({
-            "bytes_hex": hex(bytes), "chunk_ends": ends, "chunking": kind,
+            "bytes_hex": hex(bytes), "chunk_ends": ends, "chunking": kind, "extractor_reused_after_reset": reused,
             "frames": info.frames.iter().map(|f| format!("type={} flags={:#x} stream={} start={} end={}", f.ftype, f.flags, f.stream, info.start + f.start, info.start + f.end)).collect::<Vec<_>>(),
             "expected_history": exp.iter().map(show_exp).collect::<Vec<_>>(),
             "actual_history": out.iter().map(|o| format!("{o:?}")).collect::<Vec<_>>(),
